@@ -105,6 +105,7 @@ def mci_splitted_contract(si_0, si_1):
 
 def load_si():
     """Fresh load per process (cached): warren_methods and strided_interval from /repo."""
+    proxies.FORMAT_CONCRETIZE = True      # StridedInterval.__hash__ formats its fields; sets of intervals depend on it
     if "si" in _ns_cache:
         return _ns_cache["si"]
     wm = loader.load(WM_PATH, "claripy.backends.backend_vsa.warren_methods")
